@@ -16,10 +16,21 @@ import (
 
 // EnsureDirExists creates directories if the path not exists
 func EnsureDirExists(path string) error {
-	if _, err := os.Stat(path); os.IsNotExist(err) {
-		return os.MkdirAll(path, dirPerm)
+	if _, err := os.Stat(path); !os.IsNotExist(err) {
+		return os.ErrExist
 	}
-	return os.ErrExist
+	// parents first, then the directory itself with a plain mkdir: of several concurrent
+	// creators exactly one succeeds, the others see that it exists
+	if err := os.MkdirAll(filepath.Dir(path), dirPerm); err != nil {
+		return err
+	}
+	if err := os.Mkdir(path, dirPerm); err != nil {
+		if os.IsExist(err) {
+			return os.ErrExist
+		}
+		return err
+	}
+	return nil
 }
 
 // CreateV1ControllerPath create path for controller with given group, prefix
